@@ -568,9 +568,9 @@ class Study:
 
             for name, param in fixed_distributions.items():
                 trial._suggest(name, param)
-        except Exception:
-            # The sampler failed before the trial could be handed to the caller: nobody would
-            # ever finish it, so do not leave it in the RUNNING state.
+        except (Exception, KeyboardInterrupt):
+            # The sampler failed (or was interrupted) before the trial could be handed to the
+            # caller: nobody would ever finish it, so do not leave it in the RUNNING state.
             self._storage.set_trial_state_values(trial_id, TrialState.FAIL)
             raise
 
